@@ -5,6 +5,7 @@
    The variant is looked up BY NAME in the generated [instr_table]; its position is the variant index the
    model writes; struct-variant fields are placed by field name (serde_json sorts object keys).
    Reply: `ok F=<hex of enc_fn Fixed> V=<hex of enc_fn Varint>` when the skeleton is well formed (ranges),
+   every PushString / MakeClosure / NewClosure / Jump / CJump points inside its function ([refs_ok]), it
    decodes back to itself with nothing left over and every strict prefix at 1/64 steps fails to decode;
    `bad <reason>` / `unmodelled <reason>` otherwise.  The driver only parses, looks names up and prints. *)
 open Model
@@ -112,6 +113,7 @@ let () =
           try
             let f = parse toks in
             if not (wf_fnb f) then "bad a field is outside the range of its Rust type"
+            else if not (refs_ok f) then "bad an instruction refers to a string / inner function / jump target that does not exist"
             else begin
               let (bf, rtf, pff) = check Fixed f in
               let (bv, rtv, pfv) = check Varint f in
